@@ -172,7 +172,7 @@ fn deep_layouts(after_rejections: usize, out: &mut WorkerOut) {
 fn layout_grid(after_rejections: usize, out: &mut WorkerOut) {
     let hist = if after_rejections > 0 { "after-rejected-inputs:" } else { "" };
     let grid = [0usize, 1, 8, 31, 32, 33, 64, 100];
-    let tails = ["x + 1", "f(x , [y])", "- x ++", "c ? x : y"];
+    let tails = ["x + 1", "f(x , [y])", "- x ++", "c ? x : y", "f (x)", "g ( ) + x", "x not in [y]"];
     for k in grid {
         let prefix: String = (0..k).map(|i| format!("v{} ++ ; ", i)).collect();
         for tail in tails {
